@@ -482,6 +482,9 @@ def sub_env(tmpdir=None):
     return env
 
 
+_PROGRESS = re.compile(r"\d+%\|.*\|\s*\d+/\d+")
+
+
 def run_tool(module, args, cwd, timeout=120):
     argv = [sys.executable, "-m", "neuroglancer_scripts.scripts." + module] + list(args)
     tmpdir = os.path.join(cwd, "tmp")
@@ -493,7 +496,9 @@ def run_tool(module, args, cwd, timeout=120):
         rc, out, err = 124, ex.stdout or b"", (ex.stderr or b"") + b"\nTIMEOUT"
     out = out.decode("utf-8", "replace")
     err = err.decode("utf-8", "replace").replace("\r", "\n")
-    tail = "\n".join([l for l in err.splitlines() if l.strip()][-6:])[-1200:]
+    # progress bars carry timings: drop them so that records are reproducible
+    lines = [l for l in err.splitlines() if l.strip() and not _PROGRESS.search(l)]
+    tail = "\n".join(lines[-6:])[-1200:]
     return rc, out, tail, argv[2:]
 
 
